@@ -129,6 +129,12 @@ class _Norm(ast.NodeTransformer):
             return self.visit(self.aliases[node.id])
         return node
 
+    def visit_UnaryOp(self, node):
+        self.generic_visit(node)
+        if isinstance(node.op, ast.Not) and isinstance(node.operand, ast.UnaryOp) and isinstance(node.operand.op, ast.Not):
+            return node.operand.operand            # not (not x): the truth of x
+        return node
+
     def visit_Compare(self, node):
         self.generic_visit(node)
         if len(node.ops) == 1:
@@ -141,6 +147,17 @@ class _Norm(ast.NodeTransformer):
             if isinstance(node.ops[0], ast.Eq) and isinstance(r, ast.Constant) and r.value is True:
                 return l
         return node
+
+
+def negate_cond(c: str) -> str:
+    """text of the negated guard; the negation of `not x` is x"""
+    try:
+        e = ast.parse(c, mode='eval').body
+    except SyntaxError:
+        return f'not ({c})'
+    if isinstance(e, ast.UnaryOp) and isinstance(e.op, ast.Not):
+        return norm(e.operand)
+    return f'not ({c})'
 
 
 def norm_cond(expr: ast.AST, aliases: dict[str, ast.AST], parent_names: set[str]) -> str:
@@ -339,10 +356,11 @@ class _Ctx:
     def stmt(self, st: ast.stmt) -> list:
         if isinstance(st, ast.If):
             c = self.cond(st.test)
+            env0 = dict(self.env)
             then = self.block(st.body)
             orelse = self.block(st.orelse)
             # width variables assigned in both branches: sz = 'Q' / 'I'
-            self._cond_width(st, c)
+            self._cond_width(st, c, env0)
             self._zero_counts(st, c)
             if not then and not orelse:
                 return []
@@ -417,7 +435,7 @@ class _Ctx:
         over = re.sub(r'^len\((.*)\)$', r'\1', over)
         return over
 
-    def _cond_width(self, st: ast.If, c: str) -> None:
+    def _cond_width(self, st: ast.If, c: str, env0: dict | None = None) -> None:
         def widths(body):
             out = {}
             for s in body:
@@ -428,8 +446,15 @@ class _Ctx:
             return out
         a, b = widths(st.body), widths(st.orelse)
         for k in set(a) & set(b):
-            self.cond_env[k] = [(c, a[k]), ('not (' + c + ')', b[k])]
+            self.cond_env[k] = [(c, a[k]), (negate_cond(c), b[k])]
             self.env.pop(k, None)
+        # fmt = 'I' ; if signed: fmt = 'i'  - a default overridden on one branch
+        for k in (set(a) | set(b)) - (set(a) & set(b)):
+            if env0 is not None and isinstance(env0.get(k), tuple):
+                old = env0[k]
+                self.env.pop(k, None)
+                self.cond_env[k] = [(c, a[k]), (negate_cond(c), old)] if k in a else \
+                    [(c, old), (negate_cond(c), b[k])]
 
         # struct format variables, alone or as one element of a tuple: fmt, width = ('>Q', 8)
         def formats(body):
@@ -452,7 +477,7 @@ class _Ctx:
             return out
         fa, fb = formats(st.body), formats(st.orelse)
         for k in set(fa) & set(fb):
-            self.fmt_cond_env[k] = [(c, fa[k]), ('not (' + c + ')', fb[k])]
+            self.fmt_cond_env[k] = [(c, fa[k]), (negate_cond(c), fb[k])]
 
     def assign(self, st: ast.Assign) -> list:
         t = st.targets[0]
@@ -475,12 +500,13 @@ class _Ctx:
         if isinstance(t, ast.Name) and isinstance(v, ast.Constant) and isinstance(v.value, str) \
                 and v.value in CODE_BITS:
             self.env[t.id] = (CODE_BITS[v.value], v.value in SIGNED_CODES)
+            self.cond_env.pop(t.id, None)
             return []
         if isinstance(t, ast.Name) and isinstance(v, ast.IfExp) \
                 and all(isinstance(x, ast.Constant) and x.value in CODE_BITS for x in (v.body, v.orelse)):
             c = self.cond(v.test)
             self.cond_env[t.id] = [(c, (CODE_BITS[v.body.value], v.body.value in SIGNED_CODES)),
-                                   ('not (' + c + ')', (CODE_BITS[v.orelse.value],
+                                   (negate_cond(c), (CODE_BITS[v.orelse.value],
                                                         v.orelse.value in SIGNED_CODES))]
             return []
         # guard aliases: flags = trun["flags"] ; subsample_encryption = (flags & K) == K
@@ -961,7 +987,7 @@ def linearise(tree: list, guards=(), loops=(), out=None, stop=None) -> list[Leaf
             out.append(Leaf(guards, loops, n))
         elif isinstance(n, If):
             linearise(n.then, guards + split_and(n.cond), loops, out)
-            neg = n.cond[5:-1] if n.cond.startswith('not (') and n.cond.endswith(')') else f'not ({n.cond})'
+            neg = negate_cond(n.cond)
             linearise(n.orelse, guards + (neg,), loops, out)
         elif isinstance(n, Loop):
             linearise(n.body, guards, loops + (n.over,), out)
